@@ -14,10 +14,51 @@ thread_local! {
     pub static MINTS: Cell<u64> = Cell::new(0);
     /// fault plan: the k-th destructor call from now panics (0 = disarmed)
     pub static FAULT: Cell<u64> = Cell::new(0);
+    /// construction / hand-back ledger of the current history (property C08): uids constructed by `mk`,
+    /// uids handed back to the caller, uids that are gone (destroyed or handed back), and the number of
+    /// times a value that was already gone was looked at
+    pub static CONSTRUCTED: RefCell<Vec<u64>> = RefCell::new(Vec::new());
+    pub static RETURNED: RefCell<Vec<u64>> = RefCell::new(Vec::new());
+    pub static GONE: RefCell<std::collections::HashSet<u64>> = RefCell::new(std::collections::HashSet::new());
+    pub static EXPOSED: Cell<u64> = Cell::new(0);
+}
+
+fn tracked(uid: u64) -> bool {
+    uid != 0 && uid != DEFAULT_UID
+}
+pub fn note_mk(uid: u64) {
+    CONSTRUCTED.with(|c| c.borrow_mut().push(uid));
+}
+pub fn note_ret(uid: u64) {
+    RETURNED.with(|c| c.borrow_mut().push(uid));
+    if tracked(uid) {
+        GONE.with(|g| g.borrow_mut().insert(uid));
+    }
+}
+/// a value is being looked at: it must not be one that was destroyed or handed back already
+pub fn note_seen(uid: u64) {
+    if tracked(uid) && GONE.with(|g| g.borrow().contains(&uid)) {
+        EXPOSED.with(|e| e.set(e.get() + 1));
+    }
+}
+/// [98, exposed, nC, C.., nR, R..] and reset
+pub fn take_ledger() -> Vec<i64> {
+    let c = CONSTRUCTED.with(|c| std::mem::take(&mut *c.borrow_mut()));
+    let r = RETURNED.with(|c| std::mem::take(&mut *c.borrow_mut()));
+    GONE.with(|g| g.borrow_mut().clear());
+    let e = EXPOSED.with(|e| e.replace(0));
+    let mut o = vec![98, e as i64, c.len() as i64];
+    o.extend(c.iter().map(|&u| u as i64));
+    o.push(r.len() as i64);
+    o.extend(r.iter().map(|&u| u as i64));
+    o
 }
 
 pub fn log_drop(uid: u64) {
     DROPS.with(|d| d.borrow_mut().push(uid));
+    if tracked(uid) {
+        GONE.with(|g| g.borrow_mut().insert(uid));
+    }
     let k = FAULT.with(|f| f.get());
     if k > 0 {
         FAULT.with(|f| f.set(k - 1));
@@ -62,9 +103,11 @@ macro_rules! comp {
         }
         impl Tokish for $name {
             fn mk(uid: u64, val: i64) -> Self {
+                note_mk(uid);
                 $name { uid, val }
             }
             fn uid(&self) -> u64 {
+                note_seen(self.uid);
                 self.uid
             }
             fn val(&self) -> i64 {
@@ -111,6 +154,7 @@ impl Component for CZ {
 }
 impl Tokish for CZ {
     fn mk(_: u64, _: i64) -> Self {
+        note_mk(0);
         CZ
     }
     fn uid(&self) -> u64 {
